@@ -304,6 +304,9 @@ struct ItemIn {
     sym: String,
     id: String,
     time: Option<i64>,
+    /// microseconds within the millisecond, for venues whose wire format states them (Kraken's
+    /// fractional epoch seconds, Coinbase's RFC 3339 times); 0 elsewhere
+    us: i64,
     sell: bool,
     price: i64,
     amount: i64,
@@ -312,10 +315,10 @@ struct ItemIn {
 }
 impl ItemIn {
     fn zero() -> ItemIn {
-        ItemIn { sym: String::new(), id: String::new(), time: None, sell: false, price: 0, amount: 0, price2: 0, amount2: 0 }
+        ItemIn { sym: String::new(), id: String::new(), time: None, us: 0, sell: false, price: 0, amount: 0, price2: 0, amount2: 0 }
     }
     fn to_json(&self) -> Value {
-        json!({"sym": self.sym, "id": self.id, "time": self.time, "sell": self.sell,
+        json!({"sym": self.sym, "id": self.id, "time": self.time, "us": self.us, "sell": self.sell,
                "price": self.price, "amount": self.amount, "price2": self.price2, "amount2": self.amount2})
     }
     fn from_json(v: &Value) -> ItemIn {
@@ -323,6 +326,7 @@ impl ItemIn {
             sym: v["sym"].as_str().unwrap().to_string(),
             id: v["id"].as_str().unwrap().to_string(),
             time: v["time"].as_i64(),
+            us: v.get("us").and_then(|x| x.as_i64()).unwrap_or(0),
             sell: v["sell"].as_bool().unwrap(),
             price: v["price"].as_i64().unwrap(),
             amount: v["amount"].as_i64().unwrap(),
@@ -335,7 +339,8 @@ impl ItemIn {
             "(mkItem {} {} {} {} {} {} {} {})",
             s(&self.sym),
             s(&self.id),
-            opt(self.time.map(|t| z(t as i128))),
+            // exchange times are compared in MICROSECONDS
+            opt(self.time.map(|t| z(t as i128 * 1000 + self.us as i128))),
             if self.sell { "Sell" } else { "Buy" },
             z(self.price as i128),
             z(self.amount as i128),
@@ -458,8 +463,13 @@ fn q4_num(q: i64) -> Value {
 fn rfc3339(ms: i64) -> String {
     Utc.timestamp_millis_opt(ms).unwrap().to_rfc3339_opts(SecondsFormat::Millis, true)
 }
-fn secs_frac(ms: i64) -> String {
-    format!("{}.{:03}000", ms / 1000, ms % 1000)
+/// RFC 3339 with microseconds (Coinbase: "2014-11-07T08:19:27.028459Z")
+fn rfc3339_us(ms: i64, us: i64) -> String {
+    (Utc.timestamp_millis_opt(ms).unwrap() + chrono::Duration::microseconds(us)).to_rfc3339_opts(SecondsFormat::Micros, true)
+}
+/// fractional epoch seconds with microseconds (Kraken: "1534614057.321597")
+fn secs_frac(ms: i64, us: i64) -> String {
+    format!("{}.{:03}{:03}", ms / 1000, ms % 1000, us)
 }
 fn num_id(id: &str) -> u64 {
     id.parse::<u64>().unwrap_or(0)
@@ -571,7 +581,7 @@ fn payload(ex: Ex, sk: Sk, m: &MsgIn) -> String {
                     json!({"type":"match","trade_id":num_id(&it.id),"sequence":num_id(&it.id) + 777,
                            "maker_order_id":"ac928c66-ca53-498f-9c13-a110027a60e8",
                            "taker_order_id":"132fb6ae-456b-4654-b4e0-d681ac05cea1",
-                           "time": rfc3339(t0), "product_id": it.sym, "size": qs(it.amount, shape(it)), "price": qs(it.price, shape(it)),
+                           "time": rfc3339_us(t0, it.us), "product_id": it.sym, "size": qs(it.amount, shape(it)), "price": qs(it.price, shape(it)),
                            "side": if it.sell {"sell"} else {"buy"}}).to_string()
                 }
                 (Ex::GateioSpot, _) => {
@@ -592,14 +602,14 @@ fn payload(ex: Ex, sk: Sk, m: &MsgIn) -> String {
                         "price": qs(it.price, shape(it)), "contract": it.sym})}).collect::<Vec<_>>()})
                     .to_string(),
                 (Ex::Kraken, Sk::Trades) => json!([dq(items.first().unwrap_or(&ItemIn::zero()), 0), items.iter().map(|it| json!([
-                        qs(it.price, shape(it) % 2), qs(it.amount, shape(it) % 2), secs_frac(it.time.unwrap_or(t0)),
+                        qs(it.price, shape(it) % 2), qs(it.amount, shape(it) % 2), secs_frac(it.time.unwrap_or(t0), it.us),
                         if it.sell {"s"} else {"b"}, if shape(it) == 0 {"l"} else {"m"}, ""])).collect::<Vec<_>>(), "trade", sym])
                     .to_string(),
                 (Ex::Kraken, _) => {
                     // [bid, ask, timestamp, bidVolume, askVolume]
                     let it = first.expect("single item");
                     let sh = shape(it) % 2;
-                    json!([dq(it,0), [qs(it.price,sh), qs(it.price2,sh), secs_frac(t0), qs(it.amount,sh), qs(it.amount2,sh)], "spread", sym])
+                    json!([dq(it,0), [qs(it.price,sh), qs(it.price2,sh), secs_frac(t0, it.us), qs(it.amount,sh), qs(it.amount2,sh)], "spread", sym])
                         .to_string()
                 }
                 (Ex::Okx, _) => json!({"arg": {"channel": chan, "instId": sym}, "data": items.iter().enumerate().map(|(i, it)| json!({
@@ -637,7 +647,14 @@ fn side_coq(sd: Side) -> &'static str {
 }
 fn time_coq(t: DateTime<Utc>, present: bool) -> String {
     // when the message carried no exchange time the connector stamps `Utc::now()`: not compared
-    if present { opt(Some(z(t.timestamp_millis() as i128))) } else { "None".into() }
+    // microseconds, rounded to the nearest one: Kraken's fractional seconds go through an f64
+    // (Duration::from_secs_f64), which is exact only to ~0.12 us at today's epoch; every other
+    // venue's time must be a whole number of microseconds
+    if !present {
+        return "None".into();
+    }
+    let ns = t.timestamp_nanos_opt().unwrap_or(i64::MAX) as i128;
+    opt(Some(z((ns + 500).div_euclid(1000))))
 }
 
 trait ObsBody {
@@ -1190,10 +1207,12 @@ fn has_ctl(ex: Ex) -> bool {
 }
 
 fn gen_item(r: &mut Rng, ex: Ex, sk: Sk, sym: &str) -> ItemIn {
+    #[allow(unused_mut)]
     let mut ms = 1_500_000_000_000 + r.below(300_000_000_000) as i64;
-    if ex == Ex::Kraken {
+    if ex == Ex::Kraken && r.chance(1, 8) {
         ms -= ms % 125;
     }
+    let us = if matches!(ex, Ex::Kraken | Ex::Coinbase) { r.below(1000) as i64 } else { 0 };
     let time = if ex == Ex::BinanceSpot && sk == Sk::L1 { None } else { Some(ms) };
     let id = if ex == Ex::Kraken {
         String::new()
@@ -1207,6 +1226,7 @@ fn gen_item(r: &mut Rng, ex: Ex, sk: Sk, sym: &str) -> ItemIn {
         sym: sym.to_string(),
         id,
         time,
+        us,
         sell: r.chance(1, 2),
         price: if zero_price { 0 } else { 1 + r.below(400_000) as i64 },
         amount: 1 + r.below(40_000) as i64,
